@@ -45,6 +45,7 @@ def run(c):
     nontriv = set()
     steps = 0
     outcomes = {}
+    spec_outcomes = {}
     gens = [
         dict(name="gen_closure", policy="closure", depth=depth - 1 if not thorough else depth - 1, exp_choices=exps),
         dict(name="gen_acl_nometa", policy="acl", nometa=(2,), allowed=(1, 3), depth=depth - 1, exp_choices=(1, 3)),
@@ -59,10 +60,14 @@ def run(c):
                                                      "conform": st["conform"], "tie_breaks": st["ties"], "drift": st["drift"]})
         for k, v in st["outcomes"].items():
             outcomes[k] = outcomes.get(k, 0) + v
-    for need in ("send:path", "send:none", "tick:done", "report:accepted", "ingest:handled", "adv:"):
-        if not outcomes.get(need):
-            c.fail_tool("vacuous replay: outcome class %s never observed on the real path set" % need)
+        for k, v in st["spec_outcomes"].items():
+            spec_outcomes[k] = spec_outcomes.get(k, 0) + v
+    # vacuity is judged on the GENERATOR side (outcome classes the spec predicts), never on what the code under test did
+    for need in ("send:path", "send:none", "tick:ok", "tick:failed", "report:accepted", "ingest:handled", "adv:"):
+        if not spec_outcomes.get(need):
+            c.fail_tool("vacuous generation: outcome class %s never predicted by the spec in the replayed histories" % need)
     c.cov["replayed"] = nrep
+    c.cov["real_outcome_classes"] = outcomes
     c.cov["evaluations"] = steps
     c.cov["distinct_nontrivial"] = len(nontriv)
     # ---- 3. record -> P-monitors + trace validation
